@@ -325,10 +325,21 @@ fn exec_a(sc: &Scenario, verbose: bool, out: &mut RunOut) {
                 other => other,
             };
             let fw = W { ty: ft, v: fv, cfg: &wcfg };
-            let ftext = match catch_unwind(AssertUnwindSafe(|| fw.serialize(toml_edit::ser::ValueSerializer::new()).ok().map(|v| v.to_string()))) {
-                Ok(Some(t)) => t,
-                _ => continue,
+            // the value's text comes from either crate's single-value serializer (seeded choice)
+            let use_toml = crate::rng::mix(&[sc.whseed, ft.count_nodes() as u64, 0x7a]) % 2 == 0;
+            let ftext = if use_toml {
+                let mut s = String::new();
+                match catch_unwind(AssertUnwindSafe(|| fw.serialize(toml::ser::ValueSerializer::new(&mut s)).is_ok())) {
+                    Ok(true) => s,
+                    _ => continue,
+                }
+            } else {
+                match catch_unwind(AssertUnwindSafe(|| fw.serialize(toml_edit::ser::ValueSerializer::new()).ok().map(|v| v.to_string()))) {
+                    Ok(Some(t)) => t,
+                    _ => continue,
+                }
             };
+            out.stats.inc(if use_toml { "probe.field_value_text_from_toml" } else { "probe.field_value_text_from_toml_edit" });
             for route in [R7A, R7B, R7C] {
                 if !sc.wants(route) {
                     continue;
